@@ -8,11 +8,14 @@ MC          : Glsa_MC    — advisory entries are built range by range over the 
 spec -> code: Glsa_Export enumerates the package pool and the advisory entries (every single range; pairs
               vulnerable x unaffected; two vulnerable ranges; arch lists; foreign name; no vulnerable range).
               Each entry is written as a GLSA XML file into a scratch directory and read by the real GlsaDirSet.
-code -> spec: seeded random advisories (1-3 vulnerable / 0-2 unaffected ranges, all operators, globs, slots, arch
-              lists, one or two <package> entries per file) against random package sets.
-Observed per entry: restriction.match(pkg) of the restriction GlsaDirSet yields (sel) and the packages
-find_vulnerable_repo_pkgs() reports from a repository holding the same packages (scan).  Judged by Glsa_Trace:
-clauses {Match,Scan}_FalseAlarm_{name,arch,unaffected,slot,version}, {Match,Scan}_Missed.
+code -> spec: seeded random advisory DIRECTORIES (1-3 advisories for different packages, each 1-3 vulnerable /
+              0-2 unaffected ranges, all operators, globs, slots, arch lists) against random package sets.
+Observed per entry, all from ONE GlsaDirSet instance per directory: restriction.match(pkg) of the restriction the
+full walk yields (sel), the packages find_vulnerable_repo_pkgs() reports from a repository holding the same packages
+(scan), and the match of the per-name restriction of pkg_grouped_iter() (grouped).  The three queries come in a
+seeded order and each is preceded by a walk that is abandoned part-way (next() on __iter__ / iter_vulnerabilities /
+the scan, any() stopping at the first hit): what an instance reports must not depend on how it was used before.
+Judged by Glsa_Trace: clauses {Match,Scan,Grouped}_FalseAlarm_{name,arch,unaffected,slot,version}, {..}_Missed.
 
 Carve-outs (not judged): an entry containing "rlt" of a version without revision (the code documents it as a
 guaranteed empty set and refuses it), slot="*", globs on other operators than eq; for "eq V*" a package version
@@ -112,34 +115,82 @@ def run(ck):
                            pkgs=[dict(name=d["name"], ver=list(d["ver"]), slot=d["slot"], keywords=list(d["keywords"])) for d in udicts]))
         return pkgs
 
-    def record(udicts, pkgs, entries):
-        """one advisory file with the given <package> entries (distinct names)"""
-        path = os.path.join(scratch, "glsa-200001-01.xml")
-        with open(path, "w") as f:
-            f.write(TEMPLATE.format(id="200001-01", packages="\n".join(render_entry(e) for e in entries)))
-        try:
-            src = glsa.GlsaDirSet(scratch)
-            yielded = {}
+    def record(udicts, pkgs, entries, r_=None, script=None):
+        """one advisory directory: one file per <package> entry (distinct names), read by ONE GlsaDirSet instance that is
+        asked everything -- full walk, repository scan, grouped walk -- in a seeded order, interleaved with walks that
+        are abandoned part-way (next() / any() stopping at the first hit)"""
+        paths = []
+        for n, e in enumerate(entries):
+            paths.append(os.path.join(scratch, f"glsa-200001-{n + 1:02d}.xml"))
+            with open(paths[-1], "w") as f:
+                f.write(TEMPLATE.format(id=f"200001-{n + 1:02d}", packages=render_entry(e)))
+        repo = FakeRepo(pkgs=pkgs)
+        yielded, scanned, grouped, walks = {}, {}, {}, []
+
+        def partial(kind=None):
+            if kind is None:
+                kind = "next_iter" if r_ is None else r_.choice(["next_iter", "any_match", "next_scan", "next_vulns", "none"])
+                if kind == "any_match":
+                    kind += ":" + str(r_.randrange(len(pkgs)))
+            walks.append("partial:" + kind)
+            if kind == "next_iter":
+                next(iter(src), None)
+            elif kind.startswith("any_match:"):
+                p = pkgs[int(kind.split(":")[1])]
+                any(r.match(p) for r in src)
+            elif kind == "next_scan":
+                next(iter(glsa.find_vulnerable_repo_pkgs(src, repo)), None)
+            elif kind == "next_vulns":
+                next(iter(src.iter_vulnerabilities()), None)
+
+        def full_iter():
             for r in src:
                 yielded.setdefault(r.key, []).append(r)
-            scanned = {}
-            for r, matches in glsa.find_vulnerable_repo_pkgs(src, FakeRepo(pkgs=pkgs)):
+
+        def full_scan():
+            for r, matches in glsa.find_vulnerable_repo_pkgs(src, repo):
                 scanned.setdefault(r.key, set()).update(id(p) for p in matches)
+
+        def full_grouped():
+            for r in src.pkg_grouped_iter():
+                grouped.setdefault(r.key, []).append(r)
+
+        steps = [("iter", full_iter), ("scan", full_scan), ("grouped", full_grouped)]
+        if r_ is not None:
+            r_.shuffle(steps)
+        try:
+            src = glsa.GlsaDirSet(scratch)
+            if script is not None:  # replay of a recorded query sequence
+                for q in script:
+                    if q.startswith("partial:"):
+                        partial(q[len("partial:"):])
+                    else:
+                        walks.append(q)
+                        dict(steps)[q]()
+            else:
+                for name, step in steps:
+                    partial()
+                    walks.append(name)
+                    step()
         finally:
-            os.unlink(path)
+            for path in paths:
+                os.unlink(path)
         out = []
         for e in entries:
             rs = yielded.get(e["name"], [])
             sel = [any(bool(r.match(p)) for r in rs) for p in pkgs]
             scan = [id(p) in scanned.get(e["name"], ()) for p in pkgs]
+            grp = [any(bool(r.match(p)) for r in grouped.get(e["name"], [])) for p in pkgs]
             ev = dict(tid=len(events), i=0, ev="entry", name=e["name"], arches=list(e["arches"]),
                       vuln=[dict(op=r["op"], ver=list(r["ver"]), glob=r["glob"], slot=r["slot"]) for r in e["vuln"]],
                       unaff=[dict(op=r["op"], ver=list(r["ver"]), glob=r["glob"], slot=r["slot"]) for r in e["unaff"]],
-                      yielded=bool(rs), sel=sel, scan=scan)
-            meta[ev["tid"]] = (udicts, e)
+                      yielded=bool(rs), sel=sel, scan=scan, grouped=grp)
+            meta[ev["tid"]] = (udicts, e, list(entries), list(walks))
             events.append(ev)
             out.append(ev)
             ck.count()
+        if len(entries) > 1:
+            ck.extra["multi_advisory_sessions"] = ck.extra.get("multi_advisory_sessions", 0) + 1
         return out
 
     def judge(label):
@@ -154,10 +205,11 @@ def run(ck):
                 if c == "~judged":
                     ck.nontriv(("e", v["tid"]))
                 continue
-            udicts, entry = meta[v["tid"]]
+            udicts, entry, session, walks = meta[v["tid"]]
             flagged = [f"{d['name']}-{d['ver']}:{d['slot']}" for d, s in zip(udicts, e["sel"]) if s]
             scanned = [f"{d['name']}-{d['ver']}:{d['slot']}" for d, s in zip(udicts, e["scan"]) if s]
             ck.violation(c, dict(entry=entry, xml=render_entry(entry), yielded=e["yielded"], flagged=flagged, scanned=scanned,
+                                 session=session, queries=walks,
                                  vulnerable_ops=sorted({r["op"] + ("*" if r["glob"] else "") for r in entry["vuln"]}),
                                  unaffected_ops=sorted({r["op"] + ("*" if r["glob"] else "") for r in entry["unaff"]}),
                                  universe=udicts))
@@ -165,7 +217,8 @@ def run(ck):
     if ck.replay_case:
         d = ck.replay_case["detail"]
         pkgs = set_universe(d["universe"])
-        ev = record(d["universe"], pkgs, [d["entry"]])
+        ev = record(d["universe"], pkgs, d.get("session") or [d["entry"]], script=d.get("queries"))
+        ev = [x for x in ev if x["name"] == d["entry"]["name"]]
         judge("Trace:replay")
         ck.sample(dict(xml=d["xml"], flagged=sum(ev[0]["sel"])))
         ck.nontriv("replay-a")
@@ -193,18 +246,18 @@ def run(ck):
     pkgs = set_universe(udicts)
     for e in entries:
         ev = record(udicts, pkgs, [e])
-    k = next(e for e in events if e["ev"] == "entry" and e["unaff"] and 1 < sum(e["sel"]) < len(udicts) // 2)
+    ents = [e for e in events if e["ev"] == "entry"]
+    k = next((e for e in ents if e["unaff"] and 1 < sum(e["sel"]) < len(udicts) // 2), ents[0])  # evidence sample only
     ck.sample(dict(direction="spec->code", xml=render_entry(meta[k["tid"]][1]), flagged=sum(k["sel"]), of=len(udicts)))
     # 3. code -> spec
     r_ = rng(45)
     for u in range(ck.pick(10, 60)):
         uni = rand_universe(r_)
         pkgs = set_universe(uni)
-        for n in range(ck.pick(40, 100)):
-            ents = [rand_entry(r_, "c/p")]
-            if r_.random() < 0.3:
-                ents.append(rand_entry(r_, "c/q"))
-            ev = record(uni, pkgs, ents)
+        for n in range(ck.pick(25, 60)):
+            names = r_.sample(["c/p", "c/q", "d/p"], r_.choice([1, 2, 2, 3, 3]))
+            ents = [rand_entry(r_, nm) for nm in names]
+            ev = record(uni, pkgs, ents, r_)
         if u == 0:
             ck.sample(dict(direction="code->spec", xml=render_entry(ents[0]), flagged=sum(ev[0]["sel"]), of=len(uni)))
     judge("Trace:exported+random advisories")
